@@ -22,14 +22,15 @@ Record lst := mkL {
   l_q : list (nat * nat);         (* active qubit handle -> virtual id, activation order *)
   l_next : nat;                   (* next array address *)
   l_decl : list arrdecl;          (* arrays to declare and return in this block *)
-  l_ret : list nat;               (* M registers to return in this block *)
-  l_rf : list (nat * nat);        (* register future -> M index *)
+  l_ret : list reg;               (* registers to return in this block *)
+  l_rf : list (nat * reg);        (* register future -> its register (M_k of a measurement, R_k of new_register) *)
   l_lv : list (nat * nat);        (* loop variable in scope -> R index *)
-  l_len : list (nat * nat)        (* array -> length *)
+  l_len : list (nat * nat);       (* array -> length *)
+  l_mscr : list bool              (* NREGS entries: M_i was used as scratch (array measurement) in this block *)
 }.
 
 Definition l0 : lst :=
-  mkL (repeat false NREGS) 0 (repeat false NREGS) [] 0 [] [] [] [] [].
+  mkL (repeat false NREGS) 0 (repeat false NREGS) [] 0 [] [] [] [] [] (repeat false NREGS).
 
 Fixpoint first_false (l : list bool) (i : nat) : option nat :=
   match l with
@@ -46,11 +47,11 @@ Fixpoint count_true (l : list bool) : nat :=
   match l with [] => 0 | b :: r => (if b then 1 else 0) + count_true r end.
 
 Definition with_act (st : lst) (a : list bool) (p : nat) : lst :=
-  mkL a p (l_mused st) (l_q st) (l_next st) (l_decl st) (l_ret st) (l_rf st) (l_lv st) (l_len st).
+  mkL a p (l_mused st) (l_q st) (l_next st) (l_decl st) (l_ret st) (l_rf st) (l_lv st) (l_len st) (l_mscr st).
 Definition with_lvs (st : lst) (x : list (nat * nat)) : lst :=
-  mkL (l_act st) (l_peak st) (l_mused st) (l_q st) (l_next st) (l_decl st) (l_ret st) (l_rf st) x (l_len st).
+  mkL (l_act st) (l_peak st) (l_mused st) (l_q st) (l_next st) (l_decl st) (l_ret st) (l_rf st) x (l_len st) (l_mscr st).
 Definition with_qs (st : lst) (x : list (nat * nat)) : lst :=
-  mkL (l_act st) (l_peak st) (l_mused st) x (l_next st) (l_decl st) (l_ret st) (l_rf st) (l_lv st) (l_len st).
+  mkL (l_act st) (l_peak st) (l_mused st) x (l_next st) (l_decl st) (l_ret st) (l_rf st) (l_lv st) (l_len st) (l_mscr st).
 
 (* get_inactive_register(activate=True) *)
 Definition take (st : lst) : res (nat * lst) :=
@@ -59,6 +60,16 @@ Definition take (st : lst) : res (nat * lst) :=
   | Some i =>
       let a := set_nth (l_act st) i true in
       Ok (i, with_act st a (Nat.max (l_peak st) (count_true a)))
+  end.
+(* a register named by the program (loop_register=R_k): activated unless it already is;
+   the flag says whether this claim has to release it again *)
+Definition claim (k : nat) (st : lst) : res (nat * lst * bool) :=
+  match nth_error (l_act st) k with
+  | None => Err EIll
+  | Some true => Ok (k, st, false)
+  | Some false =>
+      let a := set_nth (l_act st) k true in
+      Ok (k, with_act st a (Nat.max (l_peak st) (count_true a)), true)
   end.
 (* remove_active_register *)
 Definition release (i : nat) (st : lst) : lst := with_act st (set_nth (l_act st) i false) (l_peak st).
@@ -69,16 +80,29 @@ Definition transient (n : nat) (st : lst) : res lst :=
   let c := count_true (l_act st) + n in
   if Nat.ltb NREGS c then Err EOutOfRegs else Ok (with_act st (l_act st) (Nat.max (l_peak st) c)).
 
-(* get_new_meas_outcome_register *)
-Definition take_m (st : lst) (keep : bool) : res (nat * lst) :=
-  match first_false (l_mused st) 0 with
-  | None => Err EOutOfMeas
-  | Some i =>
-      Ok (i, if keep
-             then mkL (l_act st) (l_peak st) (set_nth (l_mused st) i true) (l_q st) (l_next st) (l_decl st)
-                      (l_ret st ++ [i]) (l_rf st) (l_lv st) (l_len st)
-             else st)
+(* get_new_meas_outcome_register(keep): the first M register not in use; one that is kept until
+   the end of the block (a RegFuture) is never one that array measurements use as scratch; a
+   scratch register is released at once (meas_register_set_unused) and remembered as scratch *)
+Fixpoint orb_list (a b : list bool) : list bool :=
+  match a, b with
+  | x :: a', y :: b' => (x || y) :: orb_list a' b'
+  | _, _ => []
   end.
+Definition take_m (st : lst) (keep : bool) : res (nat * lst) :=
+  if keep then
+    match first_false (orb_list (l_mused st) (l_mscr st)) 0 with
+    | None => Err EOutOfMeas
+    | Some i =>
+        Ok (i, mkL (l_act st) (l_peak st) (set_nth (l_mused st) i true) (l_q st) (l_next st) (l_decl st)
+                   (l_ret st ++ [Rg BM i]) (l_rf st) (l_lv st) (l_len st) (l_mscr st))
+    end
+  else
+    match first_false (l_mused st) 0 with
+    | None => Err EOutOfMeas
+    | Some i =>
+        Ok (i, mkL (l_act st) (l_peak st) (l_mused st) (l_q st) (l_next st) (l_decl st)
+                   (l_ret st) (l_rf st) (l_lv st) (l_len st) (set_nth (l_mscr st) i true))
+    end.
 
 Fixpoint alook {A} (k : nat) (l : list (nat * A)) : option A :=
   match l with
